@@ -696,7 +696,7 @@ func genList(t *rapid.T) ListCase {
 
 var specList = pbt.Register(&pbt.Spec[ListCase]{
 	Property: "C06", Name: "C06.list", Rule: listRule,
-	Gen: genList, Run: RunList, Quick: 50000, Thorough: 300000,
+	Gen: genList, Run: RunList, Quick: 50000, Thorough: 300000, Replicas: 4, ReplicaEvery: 16,
 	Crashy: true, CaseCPU: 10 * time.Second,
 })
 
